@@ -587,6 +587,27 @@ pub fn c08(a: &Analysis, o: &RunOutcome) -> Vec<Violation> {
     out
 }
 
+/// C07 (liveness clause): once the last sender is gone a consumer that is waiting - blocked
+/// in a receive or parked after NotReady - must be handed the remaining values and then the
+/// end. A run that cannot finish with no live sender and a consumer still waiting never
+/// reports the end to it.
+pub fn c07_stuck(a: &Analysis, o: &RunOutcome) -> Vec<Violation> {
+    let mut out = Vec::new();
+    if !matches!(o.end, End::Deadlock | End::Livelock) {
+        return out;
+    }
+    if a.live_senders_at(u64::MAX - 1) != 0 {
+        return out;
+    }
+    let st = stuck_info(a, o);
+    if let Some(r) = st.open.iter().find(|r| r.op.is_blocking_recv()) {
+        out.push(v("C07", "end_never_reported", &site_of(r), st.text.clone()));
+    } else if let Some(r) = st.parked.iter().find(|r| r.op == OpK::Poll) {
+        out.push(v("C07", "end_never_reported", &site_of(r), st.text.clone()));
+    }
+    out
+}
+
 /// C14: a task is parked forever although the queue could make progress for it.
 pub fn c14(a: &Analysis, o: &RunOutcome) -> Vec<Violation> {
     let mut out = Vec::new();
